@@ -2479,12 +2479,19 @@ class Tuple(BaseTuple):
 
         elif isinstance(value, tuple) and len(value) == len(self.types):
             try:
-                return tuple(
+                validated = tuple(
                     type.validate(object, name, item_value)
                     for type, item_value in zip(self.types, value)
                 )
             except TraitError:
                 pass
+            else:
+                # Like the compiled validator: a value none of whose items
+                # needed converting is returned as it is (e.g. an instance of
+                # a tuple subclass).
+                if all(a is b for a, b in zip(validated, value)):
+                    return value
+                return validated
 
         self.error(object, name, value)
 
